@@ -79,7 +79,7 @@ func H_C06_ReadLoop() {
 	track := zzNewUpTrack()
 	seq := make([]uint16, N)
 	zzIn = nil
-	offs := []uint16{0, 1, 3, 6, 0xFFFE, 20, 2, 4, 9, 33}[:v.Param("O")]
+	offs := []uint16{0, 1, 3, 0xFFFE, 6, 20, 2, 4, 9, 33}[:v.Param("O")]
 	for i := 0; i < N; i++ {
 		seq[i] = b + offs[v.Choice(v.Idx("d", i), len(offs))] // concrete offsets from a symbolic base: spreads the work
 	}
